@@ -20,17 +20,23 @@
         (ids, heights, payloads) is the same in both states and carries NO CACHED FAILED MARK, applying its branch next
         to the active chain succeeds or fails alike, leaves the same protecting multiset, and the publication views /
         comparePopScoreImpl result / the machine's score are equal;
-      * C01_verdict_history_independent_partial: the verdict of the general fork case of comparePopScore (machine run
-        with the Score model's scorer) is equal, except possibly when the candidate outscores the active chain and the
-        stand-alone re-validation of its never-validated part differs (not related here: needs C20 truthfulness across
-        the two states).  Also not covered: the structural short-cuts of the outer comparePopScore before the fork
-        case (candidate is the tip / on the active chain / a successor of the tip), which read only ids and heights.
+      * C01_revalidation_replay: when a candidate outscores the active chain, the stand-alone re-validation that
+        comparePopScore performs succeeds iff the bodies of root..candidate replay from the bootstrap state, whatever
+        part of the branch was validated before (uses C20 truthfulness);
+      * C01_verdict_history_independent (+ C01_verdict_fresh_instance): the verdict of comparePopScore (the POP machine's
+        [compare] run with the Score model's scorer [score_of] and keystone test [crossed_of]) against such a candidate
+        is the same in two reachable states with the same active chain: all short-cuts (candidate invalid / the tip /
+        on the active chain / successor of the tip / no keystone boundary crossed), validation next to the active chain,
+        scoring, re-validation alone.  Premises, all explicit: candidate known to both, same candidate chain, no failed
+        mark on it in either state ([clean_all]), both calls return (no Abort: C02 compare_total), SP best chain
+        determined by the reference counts.  Finalization is outside the POP model (the TIP_IS_FINAL short-cuts);
       * C01_verdict_without_clean_premise_refuted: without the premise the verdict statement is false on the model
         (cached BLOCK_FAILED_POP: 1 vs 0 when no keystone boundary is crossed) = finding C01:verdict-0-vs-1-cached-invalid.
     The twin oracle on the implementation (history vs fresh instance: POP projection, getPopPayout, comparePopScore
     against shown candidates) still checks payouts and verdicts end to end. *)
 From Coq Require Import List ZArith NArith Bool Permutation.
-From VB Require Import Pop.SmDefs Pop.SmProofs Pop.SmWf Pop.SmCmp Pop.C01Compose Pop.C01Verdict Pop.C01Fork Pop.C01Examples.
+From VB Require Import Pop.SmDefs Pop.SmProofs Pop.SmWf Pop.SmCmp Pop.SmTruth Pop.C01Compose Pop.C01Verdict Pop.C01Fork Pop.C01Alone
+     Pop.C01Outer Pop.C01Full Pop.C01Examples.
 From VB Require Rewards.CalcDefs Rewards.BoundsDefs Score.CInt Score.CmpDefs.
 Import ListNotations.
 
@@ -148,21 +154,61 @@ Theorem C01_score_input_history_independent :
 Proof. exact candidate_score_history_independent. Qed.
 Print Assumptions C01_score_input_history_independent.
 
-(** full statement (not proved): r1 = r2; see the header for the remaining case *)
-Theorem C01_verdict_history_independent_partial :
+Theorem C01_revalidation_replay :
+  forall base s c bc fork t s2 vf s3 s4 ok2,
+    reachable base s -> find ccmd (blocks _ _ s) c = Some bc ->
+    lca ccmd (blocks _ _ s) (2 * fuel_of _ _ s) (tip _ _ s) c = Some fork ->
+    clean_all s c ->
+    apply pstate ccmd cexec cunexec s fork c = Ok (t, true) ->
+    unapplyWhile pstate ccmd cunexec (fuel_of _ _ t) t c fork (not_full ccmd) = Ok (s2, vf) ->
+    unapply pstate ccmd cunexec s2 (tip _ _ s) fork = Ok s3 ->
+    apply pstate ccmd cexec cunexec s3 vf c = Ok (s4, ok2) ->
+    (ok2 = true <-> exists p, replay (bgs s (depth s c) c) base = Some p).
+Proof. exact revalidation_replay. Qed.
+Print Assumptions C01_revalidation_replay.
+
+Theorem C01_verdict_history_independent :
   forall cfg ki ta alt_time spv sp_times,
     sp_determined spv -> sp_times_determined sp_times ->
-  forall base s1 s2 c bc1 bt1 bc2 bt2 s1' r1 s2' r2,
+  forall base s1 s2 c s1' r1 s2' r2,
     reachable base s1 -> reachable base s2 -> active_chain s1 = active_chain s2 ->
-    find ccmd (blocks _ _ s1) c = Some bc1 -> find ccmd (blocks _ _ s2) c = Some bc2 ->
-    find ccmd (blocks _ _ s1) (tip _ _ s1) = Some bt1 -> find ccmd (blocks _ _ s2) (tip _ _ s2) = Some bt2 ->
+    (exists b, find ccmd (blocks _ _ s1) c = Some b) -> (exists b, find ccmd (blocks _ _ s2) c = Some b) ->
     chain_of s1 c = chain_of s2 c ->
     clean_all s1 c -> clean_all s2 c ->
-    compare_fork pstate ccmd cexec cunexec (score_of cfg ki ta alt_time spv sp_times) (crossed_of ki) s1 c bc1 bt1 = Ok (s1', r1) ->
-    compare_fork pstate ccmd cexec cunexec (score_of cfg ki ta alt_time spv sp_times) (crossed_of ki) s2 c bc2 bt2 = Ok (s2', r2) ->
-    (r1 = r2 \/ (r1 < 0 /\ r2 = 1) \/ (r1 = 1 /\ r2 < 0))%Z.
-Proof. exact fork_verdict_history_independent_partial. Qed.
-Print Assumptions C01_verdict_history_independent_partial.
+    c_compare (score_of cfg ki ta alt_time spv sp_times) (crossed_of ki) s1 (Some c) = Ok (s1', r1) ->
+    c_compare (score_of cfg ki ta alt_time spv sp_times) (crossed_of ki) s2 (Some c) = Ok (s2', r2) ->
+    r1 = r2.
+Proof. exact verdict_history_independent. Qed.
+Print Assumptions C01_verdict_history_independent.
+
+Theorem C01_verdict_fresh_instance :
+  forall cfg ki ta alt_time spv sp_times,
+    sp_determined spv -> sp_times_determined sp_times ->
+  forall base s1 r h ops s2 c s1' r1 s2' r2,
+    reachable base s1 -> fresh_history ops -> run (c_init r h base) ops = Ok s2 ->
+    active_chain s1 = active_chain s2 ->
+    (exists b, find ccmd (blocks _ _ s1) c = Some b) -> (exists b, find ccmd (blocks _ _ s2) c = Some b) ->
+    chain_of s1 c = chain_of s2 c ->
+    clean_all s1 c -> clean_all s2 c ->
+    c_compare (score_of cfg ki ta alt_time spv sp_times) (crossed_of ki) s1 (Some c) = Ok (s1', r1) ->
+    c_compare (score_of cfg ki ta alt_time spv sp_times) (crossed_of ki) s2 (Some c) = Ok (s2', r2) ->
+    r1 = r2.
+Proof. exact verdict_fresh_instance. Qed.
+Print Assumptions C01_verdict_fresh_instance.
+
+Theorem C01_verdict_scored_example :
+  reachable ex_base (st_of vx_ops1) /\ reachable ex_base (st_of vx_ops2) /\ fresh_history vx_ops2 /\
+  active_chain (st_of vx_ops1) = active_chain (st_of vx_ops2) /\
+  chain_of (st_of vx_ops1) 18 = chain_of (st_of vx_ops2) 18 /\
+  clean_all (st_of vx_ops1) 18 /\ clean_all (st_of vx_ops2) 18 /\
+  option_map (b_lvl _) (find ccmd (blocks _ _ (st_of vx_ops1)) 15) = Some L_FULL /\
+  option_map (b_lvl _) (find ccmd (blocks _ _ (st_of vx_ops2)) 15) = Some L_CONNECTED /\
+  match c_compare vx_sc vx_cr (st_of vx_ops1) (Some 18%N), c_compare vx_sc vx_cr (st_of vx_ops2) (Some 18%N) with
+  | Ok (t1, r1), Ok (t2, r2) => r1 = (-100)%Z /\ r2 = (-100)%Z /\ tip _ _ t1 = 18%N /\ tip _ _ t2 = 18%N
+  | _, _ => False
+  end.
+Proof. exact verdict_scored_example. Qed.
+Print Assumptions C01_verdict_scored_example.
 
 Theorem C01_compose_premises_satisfiable :
   ex_ops <> fresh_ops /\
